@@ -113,7 +113,7 @@ class ZoneUnit(Shape):
         return {'kind': out[0], 'state': [under(model, x) for x in out[1]] if out[0] == 'ok' else out[1]}
 
 
-def mk(sid, prog, consts=None, files=None, expect=('ok', 'exit'), props=('C05', 'C14'), width=24, **kw):
+def mk(sid, prog, consts=None, files=None, expect=('ok', 'rejected'), props=('C05', 'C14'), width=24, **kw):
     p = {'main.asm': prog}
     p.update(files or {})
     start = kw.pop('start', 0)
@@ -151,13 +151,13 @@ def pipe_shapes(tier):
     for nm, (a, b) in {'inside': (0x30, 0x3f), 'inverted': (0x40, 0x3f), 'wide': (0x30, 0x1ffff)}.items():
         S.append(mk(f'create-memzone:{nm}', [
             ('create_memzone', 'NZ', a, b), ('memzone', 'NZ'), ('data', '.byte', [C(5)])], {},
-            expect=('ok', 'exit') if nm == 'inside' else ('exit',),
+            expect=('ok', 'rejected') if nm == 'inside' else ('rejected',),
             global_zone=(Sym('gs', 0, 0x40), Sym('ge', 0x20, 0x80)), origin=Sym('o0', 0, 0x80)))
     S.append(mk('create-memzone:duplicate', [
         ('create_memzone', 'NZ', 0x30, 0x3f), ('create_memzone', 'NZ', 0x40, 0x4f), ('instr', 'nop', None)], {},
-        expect=('exit',)))
+        expect=('rejected',)))
     S.append(mk('create-memzone:reuses-predefined-name', [
-        ('create_memzone', 'Z', 0x30, 0x3f), ('instr', 'nop', None)], {}, zones={'Z': (0x10, 0x1f)}, expect=('exit',)))
+        ('create_memzone', 'Z', 0x30, 0x3f), ('instr', 'nop', None)], {}, zones={'Z': (0x10, 0x1f)}, expect=('rejected',)))
     # f: redefined GLOBAL, origin and code length symbolic
     S.append(mk('redefined-global', [('label', 'a'), ('data', '.byte', [C(1), C(2)]), ('zero', V('n')), ('label', 'e')], N,
                 global_zone=(Sym('gs', 0, 0x40), Sym('ge', 0x20, 0x80)), origin=Sym('o0', 0, 0x90)))
